@@ -442,6 +442,17 @@ func c36Run(cfg c36Cfg, ops []c36Op) (res c36Result) {
 			rl.RLock()
 			vpn := append([]netip.Addr{}, rl.vpnAddrs...)
 			rl.RUnlock()
+			// information is filed (and filtered) under the overlay address it was asked / told about,
+			// which is any address the list is reachable under
+			for _, k := range keys {
+				known := false
+				for _, v := range vpn {
+					known = known || v == k
+				}
+				if !known {
+					vpn = append(vpn, k)
+				}
+			}
 			got := rl.CopyAddrs(nil)
 			for _, a := range got {
 				if ok, why := cfg.usableAny(vpn, a.Addr()); !ok {
